@@ -524,10 +524,14 @@ func c15Directed(c *wk.Ctx) {
 		return func() schema.Type { return schema.NewTypedMapSchema[string, int64](strTyped(), intTyped(), min, max) }
 	}
 	objOf := func(v func() schema.Type) func() schema.Type {
-		return func() schema.Type { return schema.NewObjectSchema("T", map[string]*schema.PropertySchema{"a": prop(v(), true)}) }
+		return func() schema.Type {
+			return schema.NewObjectSchema("T", map[string]*schema.PropertySchema{"a": prop(v(), true)})
+		}
 	}
 	typedObjOf := func(v func() schema.Type) func() schema.Type {
-		return func() schema.Type { return schema.NewTypedObject[c15T]("T", map[string]*schema.PropertySchema{"a": prop(v(), true)}) }
+		return func() schema.Type {
+			return schema.NewTypedObject[c15T]("T", map[string]*schema.PropertySchema{"a": prop(v(), true)})
+		}
 	}
 	inList := func(f func() schema.Type) func() schema.Type {
 		return func() schema.Type { return schema.NewListSchema(f(), nil, nil) }
